@@ -635,3 +635,217 @@ package anytype
 //@     invariant swapped: forall k int :: i < k && k < n/2 ==> ego.val[k] == old(ego.val[n-1-k]) && ego.val[n-1-k] == old(ego.val[k])
 //@     invariant untouched: forall k int :: 0 <= k && k < n && (k <= i || (n/2 <= k && k < n-n/2) || n-1-i <= k) ==> ego.val[k] == old(ego.val[k])
 //@     decreases i + 1
+
+// ---------------------------------------------------------------------------
+// Object (C06): string-keyed map with reference semantics
+// ---------------------------------------------------------------------------
+
+//@ func (*object).Init inline
+//@ func (*object).Ego inline
+
+//@ func (*object).Count pure [C06 C19 C09 C14]
+//@   requires invO(ego)
+//@   panics_iff false
+//@   ensures  count: result == len(ego.val)
+
+//@ func (*object).Empty pure [C06]
+//@   requires invO(ego)
+//@   panics_iff false
+//@   ensures  empty: result == (len(ego.val) == 0)
+
+//@ func (*object).KeyExists pure [C06 C10 C11]
+//@   requires invO(ego)
+//@   panics_iff false
+//@   ensures  exists: result == has(ego.val, key)
+
+//@ func (*object).Get pure [C06 C12 C19 C10]
+//@   requires invO(ego)
+//@   panics_iff !has(ego.val, key)
+//@   ensures  get: result == valOf(ego.val[key])
+
+//@ func (*object).GetObject pure [C06 C12 C19 C10]
+//@   requires invO(ego)
+//@   panics_iff !has(ego.val, key) || !isVObj(ego.val[key])
+//@   ensures  get: result == valOf(ego.val[key])
+
+//@ func (*object).GetList pure [C06 C12 C19 C10]
+//@   requires invO(ego)
+//@   panics_iff !has(ego.val, key) || !isVList(ego.val[key])
+//@   ensures  get: result == valOf(ego.val[key])
+
+//@ func (*object).GetString pure [C06 C12]
+//@   requires invO(ego)
+//@   panics_iff !has(ego.val, key) || !isWStr(ego.val[key])
+//@   ensures  get: result == wstr(ego.val[key])
+
+//@ func (*object).GetBool pure [C06 C12]
+//@   requires invO(ego)
+//@   panics_iff !has(ego.val, key) || !isWBool(ego.val[key])
+//@   ensures  get: result == wbool(ego.val[key])
+
+//@ func (*object).GetInt pure [C06 C12]
+//@   requires invO(ego)
+//@   panics_iff !has(ego.val, key) || !isWInt(ego.val[key])
+//@   ensures  get: result == wint(ego.val[key])
+
+//@ func (*object).GetFloat pure [C06 C12]
+//@   requires invO(ego)
+//@   panics_iff !has(ego.val, key) || !isWFloat(ego.val[key])
+//@   ensures  get: result == wfloat(ego.val[key])
+
+//@ func (*object).TypeOf pure [C06 C12 C10 C11]
+//@   requires invO(ego)
+//@   panics_iff false
+//@   ensures  kind: result == (has(ego.val, key) ? kindOf(ego.val[key]) : TUndef)
+
+//@ func (*object).Set [C06 C12 C19]
+//@   requires invO(ego)
+//@   requires args-ok: forall j int :: 0 <= j && j < len(values) ==> okArg(values[j])
+//@   let m := len(values)
+//@   assigns  obj(ego)
+//@   panics_iff !even(m) || (exists j int :: 0 <= j && j < m && even(j) && (!isVStr(values[j]) || !supp(values[j+1])))
+//@   ensures  keys: forall k str :: {has(ego.val, k)} has(ego.val, k) == (old(has(ego.val, k)) || (exists j int :: 0 <= j && j < m && even(j) && vstr(values[j]) == k))
+//@   ensures  untouched: forall k str :: {ego.val[k]} (forall j int :: 0 <= j && j < m && even(j) ==> vstr(values[j]) != k) ==> ego.val[k] == old(ego.val[k])
+//@   ensures  touched: forall k str :: {ego.val[k]} (exists j int :: 0 <= j && j < m && even(j) && vstr(values[j]) == k) ==> (exists j int :: 0 <= j && j < m && even(j) && vstr(values[j]) == k && wrapsS(ego.val[k], values[j+1]))
+//@   ensures  last-pair-wins: m >= 2 ==> wrapsS(ego.val[vstr(values[m-2])], values[m-1])
+//@   ensures  same-map: mapid(ego.val) == old(mapid(ego.val)) && ego.ptr == old(ego.ptr)
+//@   ensures  card-none: m == 0 ==> len(ego.val) == old(len(ego.val))
+//@   ensures  card-one: m == 2 ==> len(ego.val) == old(len(ego.val)) + (old(has(ego.val, vstr(values[0]))) ? 0 : 1)
+//@   ensures  fluent: result == ego.ptr [C19]
+//@   loop 1
+//@     invariant range: 0 <= i && i <= m && even(i) && even(m)
+//@     invariant card-none: i == 0 ==> len(ego.val) == old(len(ego.val))
+//@     invariant card-one: i == 2 ==> len(ego.val) == old(len(ego.val)) + (old(has(ego.val, vstr(values[0]))) ? 0 : 1)
+//@     invariant same-map: mapid(ego.val) == old(mapid(ego.val)) && ego.ptr == old(ego.ptr)
+//@     invariant keys: forall k str :: {has(ego.val, k)} has(ego.val, k) == (old(has(ego.val, k)) || (exists j int :: 0 <= j && j < i && even(j) && vstr(values[j]) == k))
+//@     invariant untouched: forall k str :: {ego.val[k]} (forall j int :: 0 <= j && j < i && even(j) ==> vstr(values[j]) != k) ==> ego.val[k] == old(ego.val[k])
+//@     invariant touched: forall k str :: {ego.val[k]} (exists j int :: 0 <= j && j < i && even(j) && vstr(values[j]) == k) ==> (exists j int :: 0 <= j && j < i && even(j) && vstr(values[j]) == k && wrapsS(ego.val[k], values[j+1]))
+//@     invariant last-pair-wins: i >= 2 ==> wrapsS(ego.val[vstr(values[i-2])], values[i-1])
+//@     invariant none-bad: forall j int :: 0 <= j && j < i && even(j) ==> isVStr(values[j]) && supp(values[j+1])
+//@     decreases m - i
+
+//@ func (*object).Clear [C06 C19]
+//@   requires invO(ego)
+//@   assigns  obj(ego)
+//@   panics_iff false
+//@   ensures  empty: len(ego.val) == 0 && (forall k str :: !has(ego.val, k))
+//@   ensures  own-storage: fresh(mapid(ego.val))
+//@   ensures  fluent: result == ego.ptr [C19]
+
+//@ func (*object).Unset [C06 C19]
+//@   requires invO(ego)
+//@   let m := len(keys)
+//@   assigns  obj(ego)
+//@   panics_iff false
+//@   ensures  keys: forall k str :: has(ego.val, k) == (old(has(ego.val, k)) && !(exists j int :: 0 <= j && j < m && keys[j] == k))
+//@   ensures  values: forall k str :: ego.val[k] == old(ego.val[k])
+//@   ensures  missing-noop: (forall j int :: 0 <= j && j < m ==> !old(has(ego.val, keys[j]))) ==> len(ego.val) == old(len(ego.val))
+//@   ensures  same-map: mapid(ego.val) == old(mapid(ego.val)) && ego.ptr == old(ego.ptr)
+//@   ensures  fluent: result == ego.ptr [C19]
+//@   loop 1
+//@     invariant range: 0 <= idx && idx <= m
+//@     invariant same-map: mapid(ego.val) == old(mapid(ego.val)) && ego.ptr == old(ego.ptr)
+//@     invariant keys: forall k str :: has(ego.val, k) == (old(has(ego.val, k)) && !(exists j int :: 0 <= j && j < idx && keys[j] == k))
+//@     invariant values: forall k str :: ego.val[k] == old(ego.val[k])
+//@     invariant missing-noop: (forall j int :: 0 <= j && j < idx ==> !old(has(ego.val, keys[j]))) ==> len(ego.val) == old(len(ego.val))
+//@     decreases m - idx
+
+//@ func (*object).Dict [C06 C09 C13]
+//@   requires invO(ego)
+//@   assigns  nothing
+//@   panics_iff false
+//@   ensures  own-storage: fresh(mapid(result)) && kindAt(mapid(result)) == KNMAP && allocated(mapid(result)) [C09 C13 C06]
+//@   ensures  keys: forall k str :: has(result, k) == has(ego.val, k)
+//@   ensures  vals: forall k str :: has(ego.val, k) ==> result[k] == valOf(ego.val[k])
+//@   ensures  card: len(result) == len(ego.val)
+//@   loop 1
+//@     assigns mapof(mapid(dict))
+//@     invariant range: 0 <= idx && idx <= ordn && ordn == len(ego.val)
+//@     invariant keys: forall k str :: has(dict, k) == (has(ego.val, k) && ordpos[k] < idx)
+//@     invariant vals: forall k str :: has(dict, k) ==> dict[k] == valOf(ego.val[k])
+//@     invariant card: len(dict) == idx
+//@     decreases ordn - idx
+
+//@ func (*object).Contains pure [C06 C09]
+//@   requires invO(ego)
+//@   panics_iff false
+//@   ensures  found: result == (exists k str :: has(ego.val, k) && anyEq(valOf(ego.val[k]), value))
+//@   loop 1
+//@     invariant range: 0 <= idx && idx <= ordn && ordn == len(ego.val)
+//@     invariant none-before: forall k str :: has(ego.val, k) && ordpos[k] < idx ==> !anyEq(valOf(ego.val[k]), value)
+//@     decreases ordn - idx
+
+//@ func (*object).KeyOf pure [C06]
+//@   requires invO(ego)
+//@   panics_iff !(exists k str :: has(ego.val, k) && anyEq(valOf(ego.val[k]), value))
+//@   ensures  found: has(ego.val, result) && anyEq(valOf(ego.val[result]), value)
+//@   loop 1
+//@     invariant range: 0 <= idx && idx <= ordn && ordn == len(ego.val)
+//@     invariant none-before: forall k str :: has(ego.val, k) && ordpos[k] < idx ==> !anyEq(valOf(ego.val[k]), value)
+//@     decreases ordn - idx
+
+//@ func NewObject [C06 C12 C09 C19]
+//@   requires args-ok: forall j int :: 0 <= j && j < len(values) ==> okArg(values[j])
+//@   let m := len(values)
+//@   assigns  nothing
+//@   panics_iff !even(m) || (exists j int :: 0 <= j && j < m && even(j) && (!isVStr(values[j]) || !supp(values[j+1])))
+//@   plet r := obj(voref(result))
+//@   ensures  new: isVObj(result) && fresh(r) && plain(r) && invO(r) && r.ptr == result && fresh(mapid(r.val))
+//@   ensures  keys: forall k str :: has(r.val, k) == (exists j int :: 0 <= j && j < m && even(j) && vstr(values[j]) == k)
+//@   ensures  touched: forall k str :: has(r.val, k) ==> (exists j int :: 0 <= j && j < m && even(j) && vstr(values[j]) == k && wrapsS(r.val[k], values[j+1]))
+//@   ensures  last-pair-wins: m >= 2 ==> wrapsS(r.val[vstr(values[m-2])], values[m-1])
+//@   ensures  empty: m == 0 ==> len(r.val) == 0
+
+//@ func (*object).Keys [C06 C09]
+//@   requires invO(ego)
+//@   let n := len(ego.val)
+//@   assigns  nothing
+//@   panics_iff false
+//@   plet r := list(vlref(result))
+//@   ensures  new: isVList(result) && fresh(r) && plain(r) && invL(r) && r.ptr == result && fresh(arr(r.val))
+//@   ensures  len: len(r.val) == n
+//@   ensures  enum: exists o ord :: {isEnum(o, dom(ego.val), n)} isEnum(o, dom(ego.val), n) && (forall i int :: 0 <= i && i < n ==> r.val[i] == WStr(o[i]))
+//@   loop 1
+//@     assigns list(list(vlref(keys)))
+//@     let r := list(vlref(keys))
+//@     invariant range: 0 <= idx && idx <= ordn && ordn == n
+//@     invariant hdr: isVList(keys) && fresh(r) && plain(r) && invL(r) && r.ptr == keys && fresh(arr(r.val)) && len(r.val) == idx
+//@     invariant elems: forall i int :: 0 <= i && i < idx ==> r.val[i] == WStr(ord[i])
+//@     decreases ordn - idx
+
+//@ func (*object).Values [C06 C09]
+//@   requires invO(ego)
+//@   let n := len(ego.val)
+//@   assigns  nothing
+//@   panics_iff false
+//@   plet r := list(vlref(result))
+//@   ensures  new: isVList(result) && fresh(r) && plain(r) && invL(r) && r.ptr == result && fresh(arr(r.val))
+//@   ensures  len: len(r.val) == n
+//@   ensures  enum: exists o ord :: {isEnum(o, dom(ego.val), n)} isEnum(o, dom(ego.val), n) && (forall i int :: 0 <= i && i < n ==> r.val[i] == old(ego.val[o[i]]))
+//@   loop 1
+//@     assigns list(list(vlref(values)))
+//@     let r := list(vlref(values))
+//@     invariant range: 0 <= idx && idx <= ordn && ordn == n
+//@     invariant hdr: isVList(values) && fresh(r) && plain(r) && invL(r) && r.ptr == values && fresh(arr(r.val)) && len(r.val) == idx
+//@     invariant elems: forall i int :: 0 <= i && i < idx ==> r.val[i] == old(ego.val[ord[i]])
+//@     decreases ordn - idx
+
+//@ func (*object).Pluck [C06 C09]
+//@   requires invO(ego)
+//@   let m := len(keys)
+//@   assigns  nothing
+//@   panics_iff exists j int :: 0 <= j && j < m && !has(ego.val, keys[j])
+//@   plet r := obj(voref(result))
+//@   ensures  new: isVObj(result) && fresh(r) && plain(r) && invO(r) && r.ptr == result && fresh(mapid(r.val))
+//@   ensures  keys: forall k str :: has(r.val, k) == (exists j int :: 0 <= j && j < m && keys[j] == k)
+//@   ensures  vals: forall k str :: has(r.val, k) ==> r.val[k] == old(ego.val[k])
+//@   loop 1
+//@     assigns obj(obj(voref(result)))
+//@     let r := obj(voref(result))
+//@     elet m0 := mapid(obj(voref(result)).val)
+//@     invariant range: 0 <= idx && idx <= m
+//@     invariant hdr: isVObj(result) && fresh(r) && plain(r) && invO(r) && r.ptr == result && mapid(r.val) == m0
+//@     invariant keys: forall k str :: has(r.val, k) == (exists j int :: 0 <= j && j < idx && keys[j] == k)
+//@     invariant vals: forall k str :: has(r.val, k) ==> r.val[k] == old(ego.val[k])
+//@     invariant none-missing: forall j int :: 0 <= j && j < idx ==> has(ego.val, keys[j])
+//@     decreases m - idx
